@@ -35,7 +35,8 @@ SCHEMAS = [
     ("zero", {"type": "record", "name": "Z", "fields": []}, [{}, {}, {}, {}, {}, {}]),
     ("string", "string", ["", "a", "bc" * 20, "é", "z" * 130, "q"]),
     ("boolean", "boolean", [False, True, False, False, True, False]),
-    ("int-many", "int", list(range(-3, 207))),  # blocks of 70 records: the block count is a two-byte varint
+    ("int-many", "int", list(range(-3, 207))),
+    ("bytes-big", "bytes", [b"a" * 70001, b"b" * 3, b"c" * 65537, b"d", b"".join(__import__("hashlib").blake2b(str(i).encode(), digest_size=64).digest() for i in range(2049)), b"f"]),  # values and block payloads beyond 64 KiB  # blocks of 70 records: the block count is a two-byte varint
     ("tail", {"type": "record", "name": "Tail", "fields": [
         {"name": "f", "type": "float"}, {"name": "d", "type": "double"}, {"name": "by", "type": "bytes"},
         {"name": "fx", "type": {"type": "fixed", "name": "Fx", "size": 2}}, {"name": "m", "type": {"type": "map", "values": "boolean"}},
@@ -115,8 +116,18 @@ def run_unit(unit, tier):
         cum[b["end"]] = n
     seen = set()
     base_info = {"schema": raw, "codec": codec, "blocks": nblocks, "len": len(data)}
-    # ---- every cut offset
-    for cut in range(len(data) + 1):
+    # ---- every cut offset (files beyond 64 KiB: every offset near a boundary, the first/last 300 bytes of every
+    # block and of the file, every offset around each 64 KiB multiple inside a block, and every 997th otherwise)
+    cuts = range(len(data) + 1)
+    if len(data) > 66000:
+        keep = set(range(0, p["hdr_end"] + 40)) | set(range(len(data) - 400, len(data) + 1)) | set(range(0, len(data), 997))
+        for b in p["blocks"]:
+            keep |= set(range(max(0, b["offset"] - 40), b["offset"] + 300)) | set(range(b["end"] - 400, b["end"] + 40))
+            for m in range(b["offset"], b["end"], 65536):
+                keep |= set(range(m - 30, m + 60))
+        cuts = sorted(c for c in keep if 0 <= c <= len(data))
+        res.stats["big_file_cut_offsets_selected"] += len(cuts)
+    for cut in cuts:
         piece = data[:cut]
         seen.add(piece)
         for how in ("reader", "block_reader"):
@@ -157,7 +168,7 @@ def run_unit(unit, tier):
     for r in written if nblocks == 3 and codec == "null" else []:
         v, idx = conform.plan(node, defs, r)
         enc = binary.encode(node, defs, v, conform.Indices(idx))
-        for cut in range(len(enc)):
+        for cut in (range(len(enc)) if len(enc) < 5000 else sorted(set(range(0, 40)) | set(range(len(enc) - 600, len(enc))) | set(range(65500, min(len(enc), 65600))) | set(range(0, len(enc), 1009)))):
             res.evals += 1
             seen.add(("s", enc[:cut]))
             try:
@@ -169,7 +180,7 @@ def run_unit(unit, tier):
         # the same prefixes with the value as a trailing field that the reader schema drops (skip path)
         WL = {"type": "record", "name": "WrapL__", "fields": [{"name": "keep", "type": "int"}, {"name": "skipme", "type": copy.deepcopy(raw)}]}
         RL = {"type": "record", "name": "WrapL__", "fields": [{"name": "keep", "type": "int"}]}
-        for cut in range(len(enc)):
+        for cut in (range(len(enc)) if len(enc) < 5000 else sorted(set(range(0, 40)) | set(range(len(enc) - 600, len(enc))) | set(range(0, len(enc), 1009)))):
             res.evals += 1
             seen.add(("sk", enc[:cut]))
             try:
